@@ -99,13 +99,14 @@ def buildCase (id kind : String) (lines : List (List String)) : Option CaseBlock
     match ws with
     | "orc" :: rest =>
       if let some c := cur then
-        ops := c :: ops
+        -- `outs` is collected newest first (linear time); put it in order when the op is closed
+        ops := { c with outs := c.outs.reverse } :: ops
         cur := none
       pendingOrc := parseOrc rest
       if pendingOrc.isNone then none
     | "o" :: rest =>
       match cur with
-      | some c => cur := some { c with outs := c.outs ++ [rest] }
+      | some c => cur := some { c with outs := rest :: c.outs }
       | none => none
     | [] => pure ()
     | cmd =>
@@ -115,7 +116,7 @@ def buildCase (id kind : String) (lines : List (List String)) : Option CaseBlock
         pendingOrc := none
       | none =>
         if cur.isSome then trailer := trailer ++ [cmd] else header := header ++ [cmd]
-  if let some c := cur then ops := c :: ops
+  if let some c := cur then ops := { c with outs := c.outs.reverse } :: ops
   return { id := id, kind := kind, header := header, ops := ops.reverse, trailer := trailer }
 
 /-- read cases from a list of lines -/
